@@ -50,3 +50,13 @@ package cff
 //@     invariant forall i int :: 0 <= i && i < rangeindex ==> o.Glyphs[i].Name != ""
 //@     invariant g == o.Glyphs[rangeindex] && g.Name == "" && 0 <= rangeindex && rangeindex < len(o.Glyphs)
 //@     decreases *
+
+// FDSelect maps a glyph to the index of its private dictionary; it is a pure
+// function (declared contract of the function-typed field).
+//@ fieldfunc (o *Outlines) FDSelect(gid glyph.ID) (idx int)
+//@   ensures 0 <= idx && idx < len(o.Private)
+
+//@ func (o *Outlines) IsCIDKeyed() (yes bool)   props: C10 C13
+//@   requires o != nil
+//@   ensures yes == (o.ROS != nil)
+//@   modifies nothing
